@@ -610,3 +610,511 @@ def lookup(dfn, res, callee):
     if dfn.startswith("log::") or dfn.startswith("core::fmt::") or dfn.startswith("alloc::fmt::"):
         return ignore_top
     return None
+
+
+# ---------------------------------------------------------------------------
+# Box / Vec / iterators / HashMap / Rc / String  (collections are values:
+# Arr = exactly known elements, ArrS = summary element + abstract length)
+
+from .domain import It, BoxV  # noqa: E402
+
+USIZE_TOP = D.top_of_int("usize")
+MAX_EXACT = 64
+
+
+def box_new_uninit(I, st, depth, callee, args, body, ln):
+    a = I.new_alloc(st, "box", None)
+    return BoxV(Ref(a, (), True))
+
+
+def box_new(I, st, depth, callee, args, body, ln):
+    a = I.new_alloc(st, "box", args[0])
+    return BoxV(Ref(a, (), True))
+
+
+def _dig_array(v):
+    """MaybeUninit<[T;N]> { uninit, value: ManuallyDrop { value: MaybeDangling(..) } } -> the array"""
+    seen = 0
+    while isinstance(v, Agg) and seen < 6:
+        nxt = None
+        for f in v.f:
+            if f is not None:
+                nxt = f
+        if nxt is None:
+            return None
+        v = nxt
+        seen += 1
+    return v
+
+
+def box_into_vec(I, st, depth, callee, args, body, ln):
+    b = args[0]
+    if isinstance(b, BoxV):
+        v = I.load(st, b.ref.alloc, b.ref.path)
+        arr = _dig_array(v)
+        if isinstance(arr, (Arr, ArrS)):
+            return arr
+    I.ev("imprecise", body, ln, "vec! contents not recovered")
+    return ArrS(TOP, USIZE_TOP)
+
+
+def vec_new(I, st, depth, callee, args, body, ln):
+    return Arr(())
+
+
+def _vec_len(v):
+    if isinstance(v, Arr):
+        return len(v.e)
+    if isinstance(v, ArrS):
+        return v.n if is_scalar(v.n) else USIZE_TOP
+    return USIZE_TOP
+
+
+def _vec_elem(v):
+    if isinstance(v, Arr):
+        r = BOT
+        for e in v.e:
+            r = join(r, e)
+        return r
+    if isinstance(v, ArrS):
+        return v.elem
+    return TOP
+
+
+def vec_push(I, st, depth, callee, args, body, ln):
+    r, x = args[0], args[1]
+    if isinstance(r, Ref):
+        v = I.load(st, r.alloc, r.path)
+        if isinstance(v, Arr) and len(v.e) < MAX_EXACT:
+            nv = Arr(v.e + (x,))
+        elif isinstance(v, (Arr, ArrS)):
+            n = _vec_len(v)
+            nv = ArrS(join(_vec_elem(v), x), D.binop("Add", n, 1, "usize") if is_scalar(n) else USIZE_TOP)
+        else:
+            nv = ArrS(TOP, USIZE_TOP)
+        I.store_to(st, r.alloc, r.path, nv, False, body, ln)
+    return Agg(())
+
+
+def vec_len(I, st, depth, callee, args, body, ln):
+    return _vec_len(deref(I, st, args[0]))
+
+
+def vec_is_empty(I, st, depth, callee, args, body, ln):
+    n = _vec_len(deref(I, st, args[0]))
+    return D.cmpop("Eq", n, 0)
+
+
+def vec_deref(I, st, depth, callee, args, body, ln):
+    # &Vec<T> -> &[T]: same storage
+    return args[0]
+
+
+def vec_clone(I, st, depth, callee, args, body, ln):
+    return deref(I, st, args[0])
+
+
+def _iter_of_value(v, by_ref=None):
+    """It over the elements of a collection value; by_ref = Ref of the collection for reference iteration"""
+    if isinstance(v, Arr):
+        if by_ref is not None:
+            return It("exact", [Ref(by_ref.alloc, by_ref.path + (("i", k),), by_ref.mut) for k in range(len(v.e))])
+        return It("exact", v.e)
+    if isinstance(v, ArrS):
+        if by_ref is not None:
+            return It("rep", [Ref(by_ref.alloc, by_ref.path + (("s", None),), by_ref.mut)])
+        return It("rep", [v.elem])
+    return It("rep", [TOP])
+
+
+def vec_drain(I, st, depth, callee, args, body, ln):
+    r = args[0]
+    if isinstance(r, Ref):
+        v = I.load(st, r.alloc, r.path)
+        I.store_to(st, r.alloc, r.path, Arr(()), False, body, ln)
+        return _iter_of_value(v)
+    return It("rep", [TOP])
+
+
+def slice_iter(I, st, depth, callee, args, body, ln):
+    r = args[0]
+    if isinstance(r, Ref):
+        return _iter_of_value(I.load(st, r.alloc, r.path), r)
+    return It("rep", [TOP])
+
+
+def into_iter(I, st, depth, callee, args, body, ln):
+    v = args[0]
+    if isinstance(v, It):
+        return v
+    if isinstance(v, Ref):
+        tgt = I.load(st, v.alloc, v.path)
+        if isinstance(tgt, (Arr, ArrS)):
+            return _iter_of_value(tgt, v)
+        if isinstance(tgt, It):
+            return v
+        return It("rep", [TOP])
+    if isinstance(v, (Arr, ArrS)):
+        return _iter_of_value(v)
+    if isinstance(v, Agg) and len(v.f) >= 2 and is_scalar(v.f[0]) and is_scalar(v.f[1]):
+        return v       # Range<usize>: handled by range_next
+    return It("rep", [TOP])
+
+
+def _it(I, st, v):
+    if isinstance(v, Ref):
+        v = I.load(st, v.alloc, v.path)
+    return v if isinstance(v, It) else It("rep", [TOP])
+
+
+def _apply_rep(I, st, depth, f, arglists, body, ln):
+    """apply closure f to each argument list zero or more times until the state is stable;
+    returns the joined results (list, one per arglist)"""
+    from .absint import join_states, states_equal, State
+    results = [BOT] * len(arglists)
+    for _ in range(6):
+        before = State(dict(st.store))
+        for k, al in enumerate(arglists):
+            r = I.call_value(st, depth, f, list(al), body, ln)
+            results[k] = join(results[k], r)
+        merged = join_states(before, st)
+        changed = not states_equal(merged, before)
+        st.store.clear()
+        st.store.update(merged.store)
+        if not changed:
+            break
+    else:
+        # did not stabilise: widen everything the closure can reach
+        for al in arglists:
+            for a in al:
+                I.havoc_reachable(st, a, None, body, ln)
+        I.havoc_reachable(st, f, None, body, ln)
+    return results
+
+
+def iter_map(I, st, depth, callee, args, body, ln):
+    it, f = _it(I, st, args[0]), args[1]
+    if it.kind == "exact":
+        return It("exact", [I.call_value(st, depth, f, [x], body, ln) for x in it.items])
+    return It("rep", _apply_rep(I, st, depth, f, [[x] for x in it.items], body, ln))
+
+
+def iter_filter(I, st, depth, callee, args, body, ln):
+    it, f = _it(I, st, args[0]), args[1]
+    refs = [_tmp_ref(I, st, x) for x in it.items]
+    _apply_rep(I, st, depth, f, [[r] for r in refs], body, ln)
+    for r in refs:
+        st.store.pop(r.alloc, None)
+    e = BOT
+    for x in it.items:
+        e = join(e, x)
+    return It("rep", [e]) if it.items else It("exact", [])
+
+
+def _tmp_ref(I, st, v):
+    a = I.new_alloc(st, "tmp", v)
+    return Ref(a, (), False)
+
+
+def iter_flat_map(I, st, depth, callee, args, body, ln):
+    it, f = _it(I, st, args[0]), args[1]
+    out = []
+    if it.kind == "exact":
+        for x in it.items:
+            r = I.call_value(st, depth, f, [x], body, ln)
+            sub = _sub_iter(I, st, r)
+            if sub.kind != "exact":
+                e = BOT
+                for y in out + list(sub.items):
+                    e = join(e, y)
+                return It("rep", [e])
+            out.extend(sub.items)
+        return It("exact", out)
+    rs = _apply_rep(I, st, depth, f, [[x] for x in it.items], body, ln)
+    group = []
+    for r in rs:
+        sub = _sub_iter(I, st, r)
+        if sub.kind == "exact":
+            group.extend(sub.items)
+        else:
+            e = BOT
+            for y in sub.items:
+                e = join(e, y)
+            return It("rep", [join_all_(group + [e])])
+    return It("rep", group)
+
+
+def join_all_(vs):
+    r = BOT
+    for v in vs:
+        r = join(r, v)
+    return r
+
+
+def _sub_iter(I, st, r):
+    if isinstance(r, It):
+        return r
+    if isinstance(r, Ref):
+        tgt = I.load(st, r.alloc, r.path)
+        if isinstance(tgt, (Arr, ArrS)):
+            return _iter_of_value(tgt, r)
+    if isinstance(r, (Arr, ArrS)):
+        return _iter_of_value(r)
+    return It("rep", [TOP])
+
+
+def iter_enumerate(I, st, depth, callee, args, body, ln):
+    it = _it(I, st, args[0])
+    if it.kind == "exact":
+        return It("exact", [Agg((k, x)) for k, x in enumerate(it.items)])
+    return It("rep", [Agg((USIZE_TOP, x)) for x in it.items])
+
+
+def iter_for_each(I, st, depth, callee, args, body, ln):
+    it, f = _it(I, st, args[0]), args[1]
+    if it.kind == "exact":
+        for x in it.items:
+            I.call_value(st, depth, f, [x], body, ln)
+    else:
+        _apply_rep(I, st, depth, f, [[x] for x in it.items], body, ln)
+    return Agg(())
+
+
+def iter_fold(I, st, depth, callee, args, body, ln):
+    it, acc, f = _it(I, st, args[0]), args[1], args[2]
+    if it.kind == "exact":
+        for x in it.items:
+            acc = I.call_value(st, depth, f, [acc, x], body, ln)
+        return acc
+    # zero or more applications: iterate with widening on the accumulator
+    for k in range(8):
+        new = acc
+        for x in it.items:
+            new = join(new, I.call_value(st, depth, f, [acc, x], body, ln))
+        if k >= 2:
+            new = D.widen(acc, new)
+        if new == acc:
+            break
+        acc = new
+    return acc
+
+
+def iter_collect(I, st, depth, callee, args, body, ln):
+    it = _it(I, st, args[0])
+    if it.kind == "exact":
+        return Arr(it.items)
+    return ArrS(join_all_(it.items), USIZE_TOP)
+
+
+def iter_next(I, st, depth, callee, args, body, ln):
+    r = args[0]
+    if isinstance(r, Ref):
+        v = I.load(st, r.alloc, r.path)
+        if isinstance(v, It):
+            if v.kind == "exact":
+                if not v.items:
+                    return none()
+                I.store_to(st, r.alloc, r.path, It("exact", v.items[1:]), False, body, ln)
+                return some(v.items[0])
+            return En({NONE: (), SOME: (join_all_(v.items),)})
+        if isinstance(v, Agg) and len(v.f) >= 2 and is_scalar(v.f[0]) and is_scalar(v.f[1]):
+            # Range<A>::next
+            lo, hi = v.f[0], v.f[1]
+            ty = None
+            for g in callee.get("ga", []):
+                if g in D.INT_TYPES:
+                    ty = g
+            m = re.search(r"Range<(\w+)>", callee.get("res") or "")
+            ty = ty or (m.group(1) if m else "usize")
+            c = D.cmpop("Lt", lo, hi)
+            vs = {}
+            if D.contains(c, 0):
+                vs[NONE] = ()
+            if D.contains(c, 1):
+                cur = lo
+                if is_scalar(lo) and is_scalar(hi):
+                    hb = D.bounds(hi)[1]
+                    cur = D.refine_cmp(lo, "Lt", hb) if D.values(lo) is not None or True else lo
+                vs[SOME] = (cur,)
+                nxt = D.binop("Add", cur, 1, ty) if is_scalar(cur) else TOP
+                # after a successful next the start is advanced; join with the unchanged start (None case)
+                newlo = nxt if not D.contains(c, 0) else join(lo, nxt)
+                I.store_to(st, r.alloc, r.path, Agg((newlo,) + tuple(v.f[1:])), False, body, ln)
+            return En(vs)
+    return En({NONE: (), SOME: (TOP,)})
+
+
+def slice_contains(I, st, depth, callee, args, body, ln):
+    v = deref(I, st, args[0])
+    x = deref(I, st, args[1])
+    if isinstance(v, Arr) and not v.e:
+        return 0
+    return BOOL
+
+
+def slice_last(I, st, depth, callee, args, body, ln):
+    r = args[0]
+    v = deref(I, st, r)
+    if isinstance(v, Arr):
+        if not v.e:
+            return none()
+        return some(Ref(r.alloc, r.path + (("i", len(v.e) - 1),), False))
+    if isinstance(v, ArrS):
+        c = D.cmpop("Eq", _vec_len(v), 0)
+        vs = {}
+        if D.contains(c, 1):
+            vs[NONE] = ()
+        if D.contains(c, 0):
+            vs[SOME] = (Ref(r.alloc, r.path + (("s", None),), False),)
+        return En(vs)
+    return En({NONE: (), SOME: (TOP,)})
+
+
+def hashmap_new(I, st, depth, callee, args, body, ln):
+    # abstract map: Agg(("map", keys summary, values summary)) -> we keep (keys, values) joins
+    return Agg((Str("<hashmap>"), BOT, BOT))
+
+
+def hashmap_insert(I, st, depth, callee, args, body, ln):
+    r, k, v = args[0], args[1], args[2]
+    if isinstance(r, Ref):
+        m = I.load(st, r.alloc, r.path)
+        if isinstance(m, Agg) and len(m.f) == 3:
+            I.store_to(st, r.alloc, r.path, Agg((m.f[0], join(m.f[1], k), join(m.f[2], v))), False, body, ln)
+            return En({NONE: (), SOME: (m.f[2],)}) if m.f[2] is not BOT else none()
+    return En({NONE: (), SOME: (TOP,)})
+
+
+def hashmap_get(I, st, depth, callee, args, body, ln):
+    r = args[0]
+    if isinstance(r, Ref):
+        m = I.load(st, r.alloc, r.path)
+        if isinstance(m, Agg) and len(m.f) == 3:
+            if m.f[2] is BOT:
+                return none()
+            a = I.new_alloc(st, "mapval", m.f[2])
+            return En({NONE: (), SOME: (Ref(a, (), False),)})
+    return En({NONE: (), SOME: (TOP,)})
+
+
+def rc_from(I, st, depth, callee, args, body, ln):
+    a = I.new_alloc(st, "rc", args[0])
+    return BoxV(Ref(a, (), False))
+
+
+def rc_deref(I, st, depth, callee, args, body, ln):
+    b = deref(I, st, args[0])
+    if isinstance(b, BoxV):
+        return b.ref
+    return TOP
+
+
+def fn_call(I, st, depth, callee, args, body, ln):
+    # <F as Fn<Args>>::call(&f, (args,))
+    f = args[0]
+    tup = args[1]
+    al = list(tup.f) if isinstance(tup, Agg) else [TOP]
+    return I.call_value(st, depth, f, al, body, ln)
+
+
+def to_string(I, st, depth, callee, args, body, ln):
+    v = deref(I, st, args[0])
+    return v if isinstance(v, Str) else TOP
+
+
+def string_from_str(I, st, depth, callee, args, body, ln):
+    return deref(I, st, args[0]) if isinstance(args[0], Ref) else args[0]
+
+
+def default_default(I, st, depth, callee, args, body, ln):
+    ga = callee.get("ga", [])
+    t = ga[0] if ga else ""
+    if t in D.INT_TYPES:
+        return 0
+    if t in ("f32", "f64"):
+        return Fl(0.0, 0.0, False)
+    if t.startswith("alloc::vec::Vec"):
+        return Arr(())
+    if t.startswith("core::option::Option"):
+        return none()
+    if t.startswith("core::marker::PhantomData"):
+        return Agg(())
+    I.ev("unknown_extern", body, ln, callee.get("defargs"))
+    return TOP
+
+
+def try_branch(I, st, depth, callee, args, body, ln):
+    # <Result<T,E> as Try>::branch -> ControlFlow<Result<Infallible,E>, T>: Continue=0(T), Break=1(residual)
+    v = args[0]
+    if isinstance(v, En):
+        vs = {}
+        if OK in v.vs:
+            vs[0] = (v.vs[OK][0],)
+        if ERR in v.vs:
+            vs[1] = (En({ERR: v.vs[ERR]}),)
+        return En(vs)
+    return En({0: (TOP,), 1: (TOP,)})
+
+
+def from_residual(I, st, depth, callee, args, body, ln):
+    v = args[0]
+    if isinstance(v, En) and ERR in v.vs:
+        return En({ERR: (TOP,)})
+    return En({ERR: (TOP,)})
+
+
+TABLE.update({
+    "alloc::boxed::Box::<T>::new_uninit": box_new_uninit,
+    "alloc::boxed::Box::<T>::new": box_new,
+    "alloc::boxed::box_assume_init_into_vec_unsafe": box_into_vec,
+    "alloc::vec::Vec::<T>::new": vec_new,
+    "alloc::vec::Vec::<T, A>::push": vec_push,
+    "alloc::vec::Vec::<T, A>::len": vec_len,
+    "alloc::vec::Vec::<T, A>::is_empty": vec_is_empty,
+    "alloc::vec::Vec::<T, A>::drain": vec_drain,
+    "core::slice::<impl [T]>::iter": slice_iter,
+    "core::slice::<impl [T]>::contains": slice_contains,
+    "core::slice::<impl [T]>::last": slice_last,
+    "core::slice::<impl [T]>::len": vec_len,
+    "core::slice::<impl [T]>::is_empty": vec_is_empty,
+    "core::iter::traits::collect::IntoIterator::into_iter": into_iter,
+    "core::iter::traits::iterator::Iterator::map": iter_map,
+    "core::iter::traits::iterator::Iterator::filter": iter_filter,
+    "core::iter::traits::iterator::Iterator::flat_map": iter_flat_map,
+    "core::iter::traits::iterator::Iterator::enumerate": iter_enumerate,
+    "core::iter::traits::iterator::Iterator::for_each": iter_for_each,
+    "core::iter::traits::iterator::Iterator::fold": iter_fold,
+    "core::iter::traits::iterator::Iterator::collect": iter_collect,
+    "core::iter::traits::iterator::Iterator::next": iter_next,
+    "std::collections::hash::map::HashMap::<K, V>::new": hashmap_new,
+    "std::collections::hash::map::HashMap::<K, V, S, A>::insert": hashmap_insert,
+    "std::collections::hash::map::HashMap::<K, V, S, A>::get": hashmap_get,
+    "core::ops::function::Fn::call": fn_call,
+    "core::ops::function::FnMut::call_mut": fn_call,
+    "core::ops::function::FnOnce::call_once": fn_call,
+    "alloc::string::ToString::to_string": to_string,
+    "core::default::Default::default": default_default,
+    "core::ops::try_trait::Try::branch": try_branch,
+    "core::ops::try_trait::FromResidual::from_residual": from_residual,
+})
+
+# models selected on the resolved callee (impl-specific)
+RES_TABLE = {
+    "<alloc::vec::Vec<T, A> as core::ops::deref::Deref>::deref": vec_deref,
+    "<alloc::vec::Vec<T, A> as core::ops::deref::DerefMut>::deref_mut": vec_deref,
+    "<alloc::vec::Vec<T, A> as core::clone::Clone>::clone": vec_clone,
+    "<alloc::rc::Rc<T, A> as core::ops::deref::Deref>::deref": rc_deref,
+    "<alloc::rc::Rc<T> as core::convert::From<T>>::from": rc_from,
+    "<alloc::string::String as core::convert::From<&str>>::from": string_from_str,
+    "<alloc::string::String as core::clone::Clone>::clone": vec_clone,
+    "<core::option::Option<T> as core::clone::Clone>::clone": clone_prim,
+    "<alloc::vec::Vec<T> as core::default::Default>::default": vec_new,
+}
+
+_old_lookup = lookup
+
+
+def lookup(dfn, res, callee):   # noqa: F811
+    if res in RES_TABLE:
+        return RES_TABLE[res]
+    return _old_lookup(dfn, res, callee)
